@@ -181,6 +181,38 @@ def run(r):
             roots = [ROOTS[0]] + rnd.sample(ROOTS[1:], 2)
             specs.append({"tree": tree, "patterns": pats, "roots": roots, "tag": "gen"})
         results = explore(specs, "C13")
+        # protocol part: the REAL server started on the same trees (root as given, also through the symlink; the exclude
+        # patterns in pyproject.toml) must index what the library scan of that root with those patterns indexed: every
+        # "ok" file defines a fixture named after its relative path, so the workspace symbols name the indexed files
+        import lsp
+        binp = core.build_binary()
+        nsrv = 0
+        for (sp, root, o, code) in results:
+            if nsrv >= (10 if quick else 60):
+                break
+            if not isinstance(o, dict) or "defs" not in o or any("[" in pt for pt in sp["patterns"]) or not os.path.isdir(root):
+                continue
+            nsrv += 1
+            with open(os.path.join(root, "pyproject.toml"), "w") as f:
+                f.write("[tool.pytest-language-server]\nexclude = [%s]\n" % ", ".join(json.dumps(pt) for pt in sp["patterns"]))
+            srv = lsp.Server(binp, root=root, timeout=30)
+            try:
+                srv.wait_for_log("Workspace scan complete", timeout=30)
+                got = sorted(set(x["name"] for x in (srv.workspace_symbol("") or [])))
+            finally:
+                try:
+                    srv.shutdown()
+                except Exception:
+                    pass
+                os.remove(os.path.join(root, "pyproject.toml"))
+            want = sorted(set(nm for (_p, nm, third) in o["defs"] if not third))
+            if got != want:
+                r.violation({"property": PID, "part": "server", "why": "the real server started on this root with these exclude patterns in pyproject.toml "
+                             "does not index the files the library scan of the same root indexes",
+                             "tree": sp["tree"], "patterns": sp["patterns"], "root_components_below_tmp": root[len(base):],
+                             "server_fixtures": got, "library_fixtures": want, "seed": r.seed}, "srv_%d" % nsrv)
+                break
+        tagc["server_roots"] += nsrv
         prop_fail = [x for x in results if x[3] & 2]
         corr_fail = [x for x in results if (x[3] & 1) and not (x[3] & 2)]
         searched = 0
